@@ -91,7 +91,7 @@ package mqtt
 //@   pure
 //@   freshresult
 //@   requires 0 <= n && n <= 0xFFFFFFF
-//@   ensures[C05] seqEq(seqOf(result), specVarint(n))
+//@   ensures[C01,C02,C04,C05,C06,C07,C09,C10,C11,C12,C13,C15,C16,C18,C19] seqEq(seqOf(result), specVarint(n))
 //@   rejects[C05] overlong: n > 0xFFFFFFF
 
 //@ func appendUint16
@@ -121,7 +121,7 @@ package mqtt
 //@   props C05
 //@   pure
 //@   freshresult
-//@   ensures[C05] seqEq(seqOf(result), u16be(v))
+//@   ensures[C01,C02,C04,C05,C06,C07,C09,C10,C11,C12,C13,C15,C16,C18,C19] seqEq(seqOf(result), u16be(v))
 
 //@ func pack
 //@   mode int
@@ -132,7 +132,7 @@ package mqtt
 //@   requires slen(flat3(contents)) <= 0xFFFFFFF
 //@   loop 1 unroll 3
 //@   loop 2 unroll 3
-//@   ensures[C05] seqEq(seqOf(result), specFixed(packetType, flat3(contents)))
+//@   ensures[C01,C02,C04,C05,C06,C07,C09,C10,C11,C12,C13,C15,C16,C18,C19] seqEq(seqOf(result), specFixed(packetType, flat3(contents)))
 
 //@ func (*pktPublish).Pack
 //@   mode int
@@ -141,7 +141,7 @@ package mqtt
 //@   freshresult
 //@   requires p != nil && p.Message != nil && p.Message.QoS <= QoS2
 //@   requires len(p.Message.Topic) <= 0xFFFF && len(p.Message.Topic)+len(p.Message.Payload)+4 <= 0xFFFFFFF
-//@   ensures[C05,C12,C15] seqEq(seqOf(result), specPublish(p.Message))
+//@   ensures[C01,C02,C05,C07,C10,C11,C12,C15,C18,C19] seqEq(seqOf(result), specPublish(p.Message))
 
 //@ func (*pktPubAck).Pack
 //@   mode int
@@ -149,14 +149,14 @@ package mqtt
 //@   pure
 //@   freshresult
 //@   requires p != nil
-//@   ensures[C04,C05] seqEq(seqOf(result), specAck(0x40, p.ID))
+//@   ensures[C01,C04,C05,C06,C07,C09,C10,C13,C16] seqEq(seqOf(result), specAck(0x40, p.ID))
 
 //@ func unpackUint16
 //@   mode int
 //@   props C06
 //@   pure
 //@   requires len(b) >= 2
-//@   ensures result0 == 2 && result1 == uint16(b[0])<<8|uint16(b[1])
+//@   ensures[C04,C05,C06,C07] result0 == 2 && result1 == uint16(b[0])<<8|uint16(b[1])
 
 //@ func (*pktPubAck).Parse
 //@   mode int
@@ -173,7 +173,7 @@ package mqtt
 //@   pure
 //@   freshresult
 //@   requires p != nil
-//@   ensures[C04,C05] seqEq(seqOf(result), specAck(0x50, p.ID))
+//@   ensures[C01,C04,C05,C06,C07,C09,C10,C13,C16] seqEq(seqOf(result), specAck(0x50, p.ID))
 
 //@ func (*pktPubRel).Pack
 //@   mode int
@@ -181,7 +181,7 @@ package mqtt
 //@   pure
 //@   freshresult
 //@   requires p != nil
-//@   ensures[C02,C05,C12] seqEq(seqOf(result), specAck(0x62, p.ID))
+//@   ensures[C01,C02,C05,C07,C10,C11,C12,C18,C19] seqEq(seqOf(result), specAck(0x62, p.ID))
 
 //@ func (*pktPubComp).Pack
 //@   mode int
@@ -189,7 +189,7 @@ package mqtt
 //@   pure
 //@   freshresult
 //@   requires p != nil
-//@   ensures[C04,C05] seqEq(seqOf(result), specAck(0x70, p.ID))
+//@   ensures[C01,C04,C05,C06,C07,C09,C10,C13,C16] seqEq(seqOf(result), specAck(0x70, p.ID))
 
 //@ func (*pktPubRec).Parse
 //@   mode int
@@ -233,7 +233,7 @@ package mqtt
 //@   pure
 //@   requires p != nil
 //@   ensures[C06] flag != 0 ==> result1 != nil
-//@   ensures[C06] result1 == nil ==> result0 == p
+//@   ensures[C04,C06,C07,C11,C17] result1 == nil ==> result0 == p
 
 //@ func (*pktConnAck).Parse
 //@   mode int
@@ -243,7 +243,7 @@ package mqtt
 //@   requires p != nil
 //@   ensures[C06] flag != 0 ==> result1 != nil
 //@   ensures[C06] len(contents) != 2 ==> result1 != nil
-//@   ensures[C06,C16] result1 == nil ==> result0 != nil && result0.Code == ConnectionReturnCode(contents[1]) && result0.SessionPresent == (contents[0]&1 != 0)
+//@   ensures[C04,C06,C07,C11,C16,C17] result1 == nil ==> result0 != nil && result0.Code == ConnectionReturnCode(contents[1]) && result0.SessionPresent == (contents[0]&1 != 0)
 
 //@ func (*pktSubAck).Parse
 //@   mode int
@@ -261,7 +261,7 @@ package mqtt
 //@   pure
 //@   loop 1 invariant forall(0, rangeindex+1, func(j int) bool { return rs[j] != 0 && !(0xD800 <= rs[j] && rs[j] <= 0xDFFF) })
 //@   ensures[C06] len(b) < 2 ==> result2 != nil
-//@   ensures[C06] len(b) >= 2 && 2+(int(b[0])*256+int(b[1])) > len(b) ==> result2 != nil
+//@   ensures[C04,C05,C06] len(b) >= 2 && 2+(int(b[0])*256+int(b[1])) > len(b) ==> result2 != nil
 //@   ensures[C04,C05,C06] result2 == nil ==> len(b) >= 2 && result0 == 2+(int(b[0])*256+int(b[1])) && result0 <= len(b)
 //@   ensures[C04,C05] result2 == nil && validUTF8(string(b[2:result0])) ==> result1 == string(b[2:result0])
 //@   ensures[C04,C05] accepts: len(b) >= 2 && 2+(int(b[0])*256+int(b[1])) <= len(b) &&
@@ -347,7 +347,7 @@ package mqtt
 //@   requires forall(0, len(p.Subscriptions), func(i int) bool { return p.Subscriptions[i].QoS <= QoS2 && len(p.Subscriptions[i].Topic) <= 0xFFFF })
 //@   requires 2+slen(specSubPayload(p.Subscriptions, len(p.Subscriptions))) <= 0xFFFFFFF
 //@   loop 1 invariant seqEq(seqOf(payload), specSubPayload(p.Subscriptions, rangeindex+1))
-//@   ensures[C05,C15] seqEq(seqOf(result), specSubscribe(p.ID, p.Subscriptions))
+//@   ensures[C01,C02,C05,C07,C10,C11,C15,C18,C19] seqEq(seqOf(result), specSubscribe(p.ID, p.Subscriptions))
 
 //@ func (*pktUnsubscribe).Pack
 //@   mode int
@@ -358,7 +358,7 @@ package mqtt
 //@   requires forall(0, len(p.Topics), func(i int) bool { return len(p.Topics[i]) <= 0xFFFF })
 //@   requires 2+slen(specUnsubPayload(p.Topics, len(p.Topics))) <= 0xFFFFFFF
 //@   loop 1 invariant seqEq(seqOf(payload), specUnsubPayload(p.Topics, rangeindex+1))
-//@   ensures[C05,C15] seqEq(seqOf(result), specUnsubscribe(p.ID, p.Topics))
+//@   ensures[C01,C02,C05,C07,C10,C11,C15,C18,C19] seqEq(seqOf(result), specUnsubscribe(p.ID, p.Topics))
 
 // ---- CONNECT (MQTT 3.1.1 section 3.1) ----
 
@@ -396,4 +396,4 @@ package mqtt
 //@   pure
 //@   freshresult
 //@   requires p != nil && connectable(p)
-//@   ensures[C05,C09] seqEq(seqOf(result), specConnect(p))
+//@   ensures[C05,C07,C09,C10,C11,C16,C19] seqEq(seqOf(result), specConnect(p))
